@@ -235,10 +235,33 @@ def check(case):
     return {"nontrivial": proper, "classes": classes}
 
 
+def default_cells(tier):
+    """MVCAPA with its DEFAULT hyper-parameters (combined / sparse penalties, scales 2, msl 2, max_segment_length 1000; 1-2 variants)
+    on median-centred realistic series of 100-300 samples with 2..6 columns (strategies.data.realistic_series, seeded)."""
+    base = {"collective_saving": None, "point_saving": None, "collective_penalty": "combined", "collective_penalty_scale": 2.0,
+            "point_penalty": "sparse", "point_penalty_scale": 2.0, "min_segment_length": 2, "max_segment_length": 1000}
+    variants = ({}, {"max_segment_length": 40}, {"collective_penalty": "sparse"}, {"collective_penalty_scale": 1.0, "point_penalty_scale": 1.0})
+    for seed in range(16 if tier == "quick" else 48):
+        for v in variants[: 2 if tier == "quick" else 4]:
+            yield {"seed": 26000 + seed, "n": (100, 180, 300)[seed % 3] + seed, "p": 2 + seed % 5, "params": dict(base, **v)}
+
+
+def check_default(case):
+    X, kind = D.realistic_series(case["seed"], case["n"], case["p"])
+    X = X - np.median(X, axis=0)
+    info = check({"params": case["params"], "X": X.tolist(), "index": {"kind": "range0"}, "columns": "strings", "mode": "same", "perm_seed": 0})
+    info["classes"] = list(info["classes"]) + [f"data={kind}"]
+    return info
+
+
 FACETS = [
     Facet(name="affected_columns", check=check, strategy=cases,
           rule=("p in 2..6, n<=50, bumps and spikes on generated column subsets with distinct per-column magnitudes (also weak dense anomalies under a lenient user penalty callable, and crafted noise-free anomalies with one dominant and one marginal column), all collective "
                 "penalty families x scales, point penalty from all four families or a user callable with rank-dependent betas, savings L2Saving / Saving(L2Cost(0)) / Saving(GaussianVarCost); "
                 "DataFrame input with generated index and column labels (8 kinds), also fitted under the same labels in another order, and array / frame buffers refilled in place after an earlier predict; non-trivial = an anomaly whose subset is proper (1 <= k* < p)"),
           n_quick=640, n_thorough=10000, shards_quick=8, shards_thorough=16),
+    Facet(name="default_settings", kind="enumerate", enumerate=default_cells, check=check_default, exhaustive=True, time_limit=300,
+          rule=("MVCAPA with its default hyper-parameters (variants: max_segment_length 40, sparse collective penalty, scales 1) on median-centred realistic "
+                "series of 100-350 samples with 2..6 columns (seeded); same sorted-saving model; 32 cells (thorough: 192), non-trivial = proper subset"),
+          shards_quick=16, shards_thorough=16, max_samples=1),
 ]
